@@ -16,9 +16,12 @@ RULE = (
     "include file moved into a second file) for programs with n <= N2; absent-file case: every single "
     "removable statement replaced by an INCLUDE line whose file does not exist. Oracles: tree == tree "
     "of the original text; absent: the printed text is the original's with that line replaced by "
-    "INCLUDE '<name>' (an Include_Stmt node at that position). Non-trivial = every case."
+    "INCLUDE '<name>' (an Include_Stmt node at that position); histories: ALL sequences of length <= 3 (4) over "
+    "{file absent, present in the 1st directory, present in the 2nd only} of parses of one main text in ONE process "
+    "(each history in a forked child), every step judged. Non-trivial = every case."
 )
 ASSUMPTIONS = ["include files are rendered flat with one leading blank so that their own source form is unambiguously free", "corpus E"]
+FRESH_WORKER_PER_TASK = True  # the history layer needs processes that have parsed nothing
 BOUNDS = {"quick": dict(pairs_max_n=20, pair_stride=3), "thorough": dict(pairs_max_n=32, pair_stride=1, triples=True)}
 
 
@@ -39,6 +42,8 @@ def plan(tier, seed):
         for sh in range(4):
             tasks.append(("single", tier, pid, sh, 4))
         tasks.append(("absent", tier, pid))
+        if tier != "quick" or pid in ("P1", "P5", "P8"):
+            tasks.append(("hist", tier, pid))
         if n <= BOUNDS[tier]["pairs_max_n"]:
             for sh in range(4):
                 tasks.append(("pairs", tier, pid, sh, 4))
@@ -182,8 +187,12 @@ def run(task):
     L = lines_of(prog)
     n = len(L)
     full = "\n".join(L) + "\n"
-    o0 = try_parse(full, std)
     res = Result()
+    if kind == "hist":
+        # nothing is parsed in this process: every history runs in a forked
+        # child of a process that has parsed nothing
+        return run_hist_task(res, task, prog, std, L, full)
+    o0 = try_parse(full, std)
     if not o0.ok:
         res.violation("C13|model:base-rejected|" + pid, str(o0.msg), {"mode": "none"})
         return res
@@ -285,6 +294,99 @@ def run(task):
     return res
 
 
+HIST_OPS = ["A", "P", "Q"]  # file Absent / Present in the first directory / present in the second only
+
+
+def eligible(stmts):
+    """positions whose statement may be replaced by an INCLUDE line"""
+    out = []
+    for i, s in enumerate(stmts):
+        if s.role != "simple" or s.label or i == 0:
+            continue
+        if stmts[i - 1].kind in ("select",) or stmts[i - 1].text.lower().startswith(("select", "interface", "abstract interface", "enum")):
+            continue
+        if s.kind in ("enumerator", "module", "procedure", "generic", "final", "import") or s.text.lower().startswith(("module procedure", "enumerator", "procedure", "generic", "final")):
+            continue
+        out.append(i)
+    return out
+
+
+def run_history(case):
+    """one history of parses of the SAME main text (statement i replaced by
+    INCLUDE 'absent_file.inc') in one process, the include file coming and
+    going between the parses; returns the first discrepancy (kind, detail,
+    step) or None.  Always executed in a forked child: process state is
+    exactly that of the history."""
+    work = Work()
+    try:
+        o0 = try_parse(case["full"], case["std"])
+        ref = canon(o0.tree)
+        for k, (op, reader_kind) in enumerate(zip(case["ops"], case["readers"])):
+            work.clear()
+            if op == "P":
+                open(os.path.join(work.d1, "absent_file.inc"), "w").write(case["inc"])
+            elif op == "Q":
+                open(os.path.join(work.d2, "absent_file.inc"), "w").write(case["inc"])
+            o = parse_with(work, case["main"], reader_kind, [work.d1, work.d2], case["std"], True)
+            if op == "A":
+                kind, detail = judge_absent(o, case["base_lines"], case["i"])
+                if kind:
+                    return ("absent:" + kind, detail, k)
+            elif not o.ok:
+                return ("rejected:" + o.klass(), (o.msg or "")[:300], k)
+            elif canon(o.tree) != ref:
+                return ("tree-differs", "A = with include, B = original; " + first_diff(canon(o.tree), ref), k)
+    finally:
+        work.close()
+    return None
+
+
+def hist_sig(case, kind, k):
+    ops = case["ops"]
+    return "C13|history:%s|%s after %s" % (kind, ops[k], "".join(sorted(set(ops[:k]))) or "nothing")
+
+
+def _base_lines(full, std):
+    o0 = try_parse(full, std)
+    return [l.strip() for l in text_of(o0.tree).split("\n") if l.strip()] if o0.ok else []
+
+
+def run_hist_task(res, task, prog, std, L, full):
+    import itertools
+    from mc.forktree import run_isolated
+
+    kind, tier, pid = task[0], task[1], task[2]
+    n = len(L)
+    base_lines = run_isolated(_base_lines, full, std)
+    stmts = [s for s in prog if s.kind != "program_anon"]
+    pos = eligible(stmts) if len(base_lines) == n else []
+    if tier == "quick":
+        pos = pos[:: max(1, len(pos) // 2)][:2]
+    maxlen = 3 if tier == "quick" else 4
+    for i in pos:
+        main = "\n".join(L[:i] + ["   include 'absent_file.inc'"] + L[i + 1 :]) + "\n"
+        for ln in range(2, maxlen + 1):
+            for ops in itertools.product(HIST_OPS, repeat=ln):
+                for readers in (("string",) * ln, ("file",) * ln, tuple(("string", "file")[q % 2] for q in range(ln))):
+                    case = {"mode": "history", "full": full, "main": main, "inc": flat(L[i : i + 1]), "ops": list(ops), "readers": list(readers), "std": std, "base_lines": base_lines, "i": i}
+                    res.evals += 1
+                    res.transitions += ln
+                    hk = h64(main, repr(ops), repr(readers))
+                    res.states.add(hk)
+                    res.nontrivial.add(hk)
+                    out = run_isolated(run_history, case)
+                    res.outcomes["history:" + (out[0] if out else "ok")] += 1
+                    res.results.add(h64(repr(ops), repr(out and out[0])))
+                    if out:
+                        if out[0] == "HARNESS-ERROR":
+                            res.violation("C13|harness|history", out[1], case)
+                            continue
+                        kind2, detail, k = out
+                        res.violation(hist_sig(case, kind2, k), "%s statement %d replaced by INCLUDE 'absent_file.inc'; history %s (A = file absent, P = present in the 1st include directory, Q = present in the 2nd only), readers %s; parse number %d:\n%s\n--- main:\n%s" % (pid, i + 1, "".join(ops), list(readers), k + 1, detail, main), case, cost=ln * 100000 + len(main))
+    res.sample({"program": pid, "history": "A P A (file absent, present, absent again)", "main": main if pos else ""})
+    return res
+
+
 def where_tag(stmts, i):
     opens = []
     for t in stmts[:i]:
@@ -324,6 +426,11 @@ def replay(case):
         finally:
             work.close()
         return [{"sig": "C13|absent:%s|%s" % (k, case["tag"]), "detail": d}] if k else []
+    if case.get("mode") == "history":
+        from mc.forktree import run_isolated
+
+        out = run_isolated(run_history, case)
+        return [{"sig": hist_sig(case, out[0], out[2]), "detail": out[1]}] if out else []
     if case.get("mode") != "resolved":
         return []
     work = Work()
